@@ -206,7 +206,18 @@ def o_add_proton(ctx):
 EXPECTED_H = {'HIS': 2, 'ARG': 5, 'AMD': 2, 'TRP': 1, 'BBN': 1}
 
 
-def mk_complement(name, rotation=None, keep=False):
+def hetero_residue(txt, resnum, newname):
+    """one residue written as a modified residue: HETATM records with a non-standard residue name, coordinates untouched"""
+    out = []
+    for l in txt.split('\n'):
+        if l.startswith('ATOM') and int(l[22:26]) == resnum:
+            l = 'HETATM' + l[6:17] + newname + l[20:]
+        if l:
+            out.append(l)
+    return '\n'.join(out) + '\n'
+
+
+def mk_complement(name, rotation=None, keep=False, hetero=None):
     def body(ctx):
         """complete residues with regular geometry get the full complement;
         every added hydrogen has exactly one (heavy) neighbour at the tabulated
@@ -224,7 +235,7 @@ def mk_complement(name, rotation=None, keep=False):
             from .c04 import with_hydrogens_text
             mol = M.run(with_hydrogens_text(name), args=['--keep-protons'], transform=tr)
         else:
-            mol = M.run(M.text(name), transform=tr)
+            mol = M.run(hetero_residue(M.text(name), *hetero) if hetero else M.text(name), transform=tr)
         conf = mol.conformations['1A']
         first_res = min(a.res_num for a in conf.atoms)
         for g in conf.groups:
@@ -232,9 +243,14 @@ def mk_complement(name, rotation=None, keep=False):
             if exp is None:
                 continue
             nh = len([a for a in g.interaction_atoms_for_acids if a.element == 'H'])
-            if g.type == 'BBN' and (g.atom.res_name == 'PRO' or g.atom.res_num == first_res
-                                    or len([b for b in g.atom.bonded_atoms if b.element != 'H']) < 2):
-                continue      # proline, the first residue, or the residue after a chain break (no peptide bond: the amide is a free NH2)
+            if g.type == 'BBN':
+                # the amide has one hydrogen iff the nitrogen is peptide-bonded; whether it is, is decided here from the
+                # geometry of the INPUT (a heavy atom of another residue within 2 A), not from the bonds the program perceived
+                n = g.atom
+                linked = [o for o in conf.atoms if o.element != 'H' and (o.res_num, o.icode, o.chain_id) != (n.res_num, n.icode, n.chain_id)
+                          and (o.x - n.x) * (o.x - n.x) + (o.y - n.y) * (o.y - n.y) + (o.z - n.z) * (o.z - n.z) < 4.0]
+                if g.atom.res_name == 'PRO' or g.atom.res_num == first_res or not linked:
+                    continue      # proline, the first residue, or the residue after a chain break (no peptide bond: a free NH2)
             ctx.claim('full-complement[%s]' % g.type, nh == exp, detail='%s: %d hydrogens (expected %d)' % (g.label, nh, exp))
         for a in conf.atoms:
             if a.element == 'H':
@@ -285,6 +301,10 @@ def obligations(tier):
                               bounds='micro-structure %s under a symbolic grid translation t in [0,2.509] along x; whole pipeline' % name,
                               claim_doc='His 2, Arg 5, Asn/Gln 2, Trp 1, amide 1 (not Pro / first residue); each H has one heavy neighbour at the tabulated length +-0.0009; H on one atom >= 0.5 A apart',
                               max_paths=5000, wall_s=170 if tier == 'quick' else 1200))
+    for name, het in ([('pep8', (28, 'ABA'))] if tier == 'quick' else [('pep8', (28, 'ABA')), ('pep8', (31, 'TPO')), ('pair_GLU_ARG_TYR', (35, 'CGU'))]):
+        obs.append(Obligation('O3-complement-and-placement[%s,%d as HETATM %s]' % (name, het[0], het[1]), mk_complement(name, hetero=het), code=pipe + ['propka/hydrogens.py:setup_bonding'],
+                              bounds='%s with residue %d written as a modified residue (HETATM records, residue name %s), symbolic grid translation' % (name, het[0], het[1]),
+                              claim_doc='as O3: the residues linked to the modified residue keep their single amide hydrogen', max_paths=5000, wall_s=170))
     for name in (['pair_ASP_ARG', 'pep8'] if tier == 'quick' else ['pair_ASP_ARG', 'pep8', 'pair_CYS_CYS_bridge', 'pair_GLU_ARG_TYR', 'tri_HIS']):
         obs.append(Obligation('O3-complement-and-placement[%s,keep-protons]' % name, mk_complement(name, keep=True), code=pipe + ['propka/bonds.py:BondMaker.check_distance'],
                               bounds='%s with the hydrogens supplied (the program\'s own, incl. H...O contacts below 2 A), --keep-protons, symbolic grid translation' % name,
